@@ -50,6 +50,19 @@ def _loc(env, name):
         raise Unsupported(f"the loop invariant is keyed to the local variable `{name}`, which the loop no longer has") from None
 
 
+def _flag(ip, env, name):
+    """a bookkeeping flag of the real code (`element_yielded`, ...) as a z3 Bool, or None when the loop has no such local
+    (an edit removed or renamed it): clauses about it are then dropped, the specification clauses do not depend on it"""
+    if name not in env.vars:
+        return None
+    v = ip.truth(env.vars[name])
+    return z3.BoolVal(v) if isinstance(v, bool) else v
+
+
+def _same(flag, cond):
+    return z3.BoolVal(True) if flag is None else flag == cond
+
+
 def out_n(h):
     return h.f("GenOut", "n", OUT)
 
@@ -112,7 +125,7 @@ class IterUnit(FunctionUnit):
         unit = self
         self.globals = {
             "_iterate": Builtin("_iterate", lambda ip, it: it),
-            "anext": Builtin("anext", lambda ip, it: AwaitableVal("contract", lambda: unit.take(ip, it, "StopAsyncIteration"))),
+            "anext": Builtin("anext", lambda ip, it, *default: AwaitableVal("contract", lambda: unit.take_or_default(ip, it, default))),
             "next": Builtin("next", lambda ip, it: unit.take(ip, it, "StopIteration")),
             "iter": Builtin("iter", lambda ip, it: it),
             "checkpoint": Builtin("checkpoint", lambda ip: AwaitableVal("checkpoint")),
@@ -164,6 +177,17 @@ class IterUnit(FunctionUnit):
         if stop == "StopAsyncIteration":
             raise PyExc(ExcVal(StopAsyncIteration, ()))
         raise PyExc(ExcVal(StopIteration, ()))
+
+    def take_or_default(self, ip, it, default):
+        """anext(it) / anext(it, default)"""
+        if not default:
+            return self.take(ip, it, "StopAsyncIteration")
+        try:
+            return self.take(ip, it, "StopAsyncIteration")
+        except PyExc as e:
+            if e.exc.pycls is StopAsyncIteration:
+                return default[0]
+            raise
 
     def isinstance(self, ip, x, cls):
         if isinstance(x, Sym) and x.ty is SRC and isinstance(cls, ClassVal):
@@ -243,8 +267,7 @@ def reduce_loop_inv(ip, env):
     value = ip.term(_loc(env, "value"), OBJ)
     return [
         ("value_is_the_fold_of_the_elements_consumed_so_far", z3.And(value == ACC(i - u.off), i >= u.off, k <= u.hi0, src_unchanged(u, h))),
-        ("function_called_only_after_the_callback_was_awaited", z3.Implies(_fc(ip, env), i > u.off)),
-    ]
+    ] + ([("c08.function_called_only_after_the_callback_was_awaited", z3.Implies(_fc(ip, env), i > u.off))] if "function_called" in env.vars else [])
 
 
 def _fc(ip, env):
@@ -380,10 +403,9 @@ def takewhile_loop_inv(ip, env):
     h = H(ip.st)
     i = u.consumed(ip)
     j = z3.Int(ip.st.uniq("j"))
-    ey = ip.truth(_loc(env, "element_yielded"))
-    ey = z3.BoolVal(ey) if isinstance(ey, bool) else ey
+    ey = _flag(ip, env, "element_yielded")
     return [
-        ("every_element_so_far_satisfied_the_predicate_and_was_yielded_in_order", z3.And(i >= 0, ip.ctx.loop_k <= u.hi0, out_n(h) == i, ey == (i > 0), forall([j], z3.Implies(z3.And(0 <= j, j < i), z3.And(PRED(u.x(j)), out_at(h, j) == u.x(j))), patterns=[out_at(h, j)]), u.out_inv_common(h))),
+        ("every_element_so_far_satisfied_the_predicate_and_was_yielded_in_order", z3.And(i >= 0, ip.ctx.loop_k <= u.hi0, out_n(h) == i, _same(ey, i > 0), forall([j], z3.Implies(z3.And(0 <= j, j < i), z3.And(PRED(u.x(j)), out_at(h, j) == u.x(j))), patterns=[out_at(h, j)]), u.out_inv_common(h))),
     ]
 
 
@@ -470,8 +492,7 @@ def filterfalse_loop_inv(ip, env):
     h = H(ip.st)
     i = u.consumed(ip)
     j = z3.Int(ip.st.uniq("j"))
-    ey = ip.truth(_loc(env, "element_yielded"))
-    ey = z3.BoolVal(ey) if isinstance(ey, bool) else ey
+    ey = _flag(ip, env, "element_yielded")
     return [
         (
             "the_output_is_a_strictly_increasing_selection_of_rejected_elements_and_counts_all_of_them",
@@ -480,7 +501,7 @@ def filterfalse_loop_inv(ip, env):
                 ip.ctx.loop_k <= u.hi0,
                 u.out_inv_common(h),
                 out_n(h) == CNT(i),
-                ey == (out_n(h) > 0),
+                _same(ey, out_n(h) > 0),
                 forall([j], z3.Implies(z3.And(0 <= j, j < out_n(h)), z3.And(0 <= pos_at(h, j), pos_at(h, j) < i, z3.Not(PRED(u.x(pos_at(h, j)))), out_at(h, j) == u.x(pos_at(h, j)), z3.Implies(j > 0, pos_at(h, j - 1) < pos_at(h, j)))), patterns=[out_at(h, j), pos_at(h, j)]),
             ),
         ),
@@ -531,10 +552,9 @@ def pairwise_loop_inv(ip, env):
     i = u.consumed(ip)
     j = z3.Int(ip.st.uniq("j"))
     prev = ip.term(_loc(env, "previous"), OBJ)
-    ey = ip.truth(_loc(env, "element_yielded"))
-    ey = z3.BoolVal(ey) if isinstance(ey, bool) else ey
+    ey = _flag(ip, env, "element_yielded")
     return [
-        ("previous_is_the_last_element_consumed_and_every_adjacent_pair_so_far_was_yielded", z3.And(i >= 1, ip.ctx.loop_k <= u.hi0, u.out_inv_common(h), prev == u.x(i - 1), out_n(h) == i - 1, ey == (i > 1), forall([j], z3.Implies(z3.And(0 <= j, j < out_n(h)), out_at(h, j) == PAIR(u.x(j), u.x(j + 1))), patterns=[out_at(h, j)]))),
+        ("previous_is_the_last_element_consumed_and_every_adjacent_pair_so_far_was_yielded", z3.And(i >= 1, ip.ctx.loop_k <= u.hi0, u.out_inv_common(h), prev == u.x(i - 1), out_n(h) == i - 1, _same(ey, i > 1), forall([j], z3.Implies(z3.And(0 <= j, j < out_n(h)), out_at(h, j) == PAIR(u.x(j), u.x(j + 1))), patterns=[out_at(h, j)]))),
     ]
 
 
@@ -685,9 +705,8 @@ def islice_inv(ip, env):
     h = H(ip.st)
     i = u.consumed_of(h)
     index = ip.term(_loc(env, "index"), INT)
-    ey = ip.truth(_loc(env, "element_yielded"))
-    ey = z3.BoolVal(ey) if isinstance(ey, bool) else ey
-    return [("index_counts_the_elements_consumed_and_exactly_the_selected_ones_among_them_were_yielded", z3.And(index == i, i >= 0, i <= u.n, u.b is None or i <= u.b, src_unchanged(u, h), ey == (out_n(h) > 0), selection(u, h, i))), ("c08.what_was_consumed_or_yielded_so_far_is_covered_by_requests_and_checkpoints", rq(h) >= i)]
+    ey = _flag(ip, env, "element_yielded")
+    return [("index_counts_the_elements_consumed_and_exactly_the_selected_ones_among_them_were_yielded", z3.And(index == i, i >= 0, i <= u.n, u.b is None or i <= u.b, src_unchanged(u, h), _same(ey, out_n(h) > 0), selection(u, h, i))), ("c08.what_was_consumed_or_yielded_so_far_is_covered_by_requests_and_checkpoints", rq(h) >= i)]
 
 
 MAXSIZE = 2**63 - 1
@@ -763,10 +782,9 @@ def compress_inv(ip, env):
     h = H(ip.st)
     i = u.consumed_of(h)
     si = h.dq(SRC.cls, u.sel.t).lo - u.slo0
-    ey = ip.truth(_loc(env, "element_yielded"))
-    ey = z3.BoolVal(ey) if isinstance(ey, bool) else ey
+    ey = _flag(ip, env, "element_yielded")
     sd = h.dq(SRC.cls, u.sel.t)
-    return [("data_and_selectors_advance_together_and_exactly_the_selected_data_were_yielded", z3.And(i == si, i >= 0, i <= u.n, i <= u.shi0 - u.slo0, src_unchanged(u, h), sd.hi == u.shi0, sd.data == u.sdata0, ey == (out_n(h) > 0), selection(u, h, i))), ("c08.what_was_consumed_or_yielded_so_far_is_covered_by_requests_and_checkpoints", rq(h) >= i)]
+    return [("data_and_selectors_advance_together_and_exactly_the_selected_data_were_yielded", z3.And(i == si, i >= 0, i <= u.n, i <= u.shi0 - u.slo0, src_unchanged(u, h), sd.hi == u.shi0, sd.data == u.sdata0, _same(ey, out_n(h) > 0), selection(u, h, i))), ("c08.what_was_consumed_or_yielded_so_far_is_covered_by_requests_and_checkpoints", rq(h) >= i)]
 
 
 class CompressUnit(SelectionUnit):
@@ -2136,9 +2154,8 @@ def chain_outer_inv(ip, env):
     u.outer_k = ip.ctx.loop_k
     a = ip.ctx.loop_k - u.olo
     la, lb = st.get("ChainGhost", "la", CG), st.get("ChainGhost", "lb", CG)
-    ey = ip.truth(_loc(env, "element_yielded"))
-    ey = z3.BoolVal(ey) if isinstance(ey, bool) else ey
-    return [("everything_before_the_current_inner_source_has_been_yielded", z3.And(0 <= a, ip.ctx.loop_k <= u.ohi, la >= -1, ey == (la >= 0), out_n(h) >= 0, (out_n(h) > 0) == (la >= 0), u.between(st, la, lb, a), u.sources_unchanged(h)))]
+    ey = _flag(ip, env, "element_yielded")
+    return [("everything_before_the_current_inner_source_has_been_yielded", z3.And(0 <= a, ip.ctx.loop_k <= u.ohi, la >= -1, _same(ey, la >= 0), out_n(h) >= 0, (out_n(h) > 0) == (la >= 0), u.between(st, la, lb, a), u.sources_unchanged(h)))]
 
 
 def chain_inner_inv(ip, env):
@@ -2149,9 +2166,8 @@ def chain_inner_inv(ip, env):
     r = ip.term(_loc(env, "iterable"), SRC)
     b = ip.ctx.loop_k - z3.Select(u.e_lo, r)
     la, lb = st.get("ChainGhost", "la", CG), st.get("ChainGhost", "lb", CG)
-    ey = ip.truth(_loc(env, "element_yielded"))
-    ey = z3.BoolVal(ey) if isinstance(ey, bool) else ey
-    return [("the_current_inner_source_has_been_yielded_up_to_the_current_element", z3.And(0 <= a, a < u.m(), r == u.inner(a), 0 <= b, b <= u.length(a), la >= -1, ey == (la >= 0), out_n(h) >= 0, (out_n(h) > 0) == (la >= 0), z3.If(b == 0, u.between(st, la, lb, a), z3.And(la == a, lb == b - 1)), u.sources_unchanged(h)))]
+    ey = _flag(ip, env, "element_yielded")
+    return [("the_current_inner_source_has_been_yielded_up_to_the_current_element", z3.And(0 <= a, a < u.m(), r == u.inner(a), 0 <= b, b <= u.length(a), la >= -1, _same(ey, la >= 0), out_n(h) >= 0, (out_n(h) > 0) == (la >= 0), z3.If(b == 0, u.between(st, la, lb, a), z3.And(la == a, lb == b - 1)), u.sources_unchanged(h)))]
 
 
 UNITS += [ChainUnit]
